@@ -1,5 +1,5 @@
 (* Props/C02.v -- property C02: path navigation returns exactly the elements of the resource's tree. *)
-From FPV Require Import Base.Prelude C19.Model C02.Model C02.Proofs.
+From FPV Require Import Base.Prelude C19.Model C02.Model C02.Proofs C02.Bridge.
 
 (* the elements at n.rest below t are those at rest below the children named n, child by child in order:
    repeated elements are flattened in document order *)
@@ -21,5 +21,8 @@ Theorem C02_empty_stays_empty : forall sc p, navigate sc false p [] = Ok [].
 Proof. exact navigate_empty. Qed.
 Theorem C02_index : forall k items, index_step k items = match nth_error items (N.to_nat k) with Some x => [x] | None => [] end.
 Proof. exact index_step_spec. Qed.
+(* what the model computes for ANY query passes the predicate the correspondence evaluates *)
+Theorem C02_model_query_holds : forall sc t p, query_holds sc t (p, model_outcome sc t p, true) = true.
+Proof. exact model_query_holds. Qed.
 Print Assumptions C02_names_path.
 Print Assumptions C02_model_meets_spec.
